@@ -196,6 +196,20 @@ CHECKS = {
              "property statement enumerates; zero chain lengths are not judged.",
         technique="TLA+ spec Precond.tla: TLC-derived decision table over precondition types; replayed row by row into the API",
         ref="DESIGN.md section 4 C20"),
+    "C09": dict(
+        text="Xform.tla enumerates compositions of up to three exact lattice maps (translations, quarter turns about lattice "
+             "axes through arbitrary origins with non-unit axes, integer scalings, mirrors in planes through arbitrary points "
+             "with non-unit normals), computes exact images of probe points/vectors and the length ratio, and TLC checks every "
+             "composition is a similarity; the harness' float implementation of the maps is proven against those exact images "
+             "and then 24 entity kinds (point, faces/operations with every edge kind, sketch shapes, round shapes, rings, "
+             "hemisphere, stacks, a joint, five curve types) are transformed by method calls or transformation lists and "
+             "their output geometry (vertices, arc third points, spline points, edge lengths) compared with the image of the "
+             "original's; copy() equivalence/independence, a copied hemisphere's geometry, helper argument immutability.",
+        note="Rotation angles are multiples of 90 degrees and scale ratios integers (exactness on the lattice); axes, normals "
+             "and origins are non-unit / non-zero. Angle edges in the fixtures have axes perpendicular to their chords "
+             "(the library's arc construction is not reversal-invariant for inconsistent angle/axis data).",
+        technique="TLA+ spec Xform.tla/Lattice.tla: TLC-enumerated exact affine maps and images; metamorphic replay into the API",
+        ref="DESIGN.md section 4 C09"),
 }
 
 def main():
